@@ -666,6 +666,8 @@ def nearest_neighbor_tcrdist(df, chain='beta', max_edits=2, edit_on_trimmed=True
     path = os.path.join(folder, "data", f"vdists_{chain}.csv")
     vdists = pd.read_csv(path, index_col=0)
 
+    if len(neighbors) == 0:
+        return np.empty((0, 3))
     neighbors_arr = np.array(neighbors)
     edges = neighbors_arr[:, :2]
     tcrdist_v = _lookup(vdists,
